@@ -91,7 +91,9 @@ fn verif_pq_names(anchor: &AnchorContext) -> serde_json::Value {
         .map(|(cid, name)| json!({"cid": cid.get(), "name": name}))
         .collect_vec();
     let reserved = anchor.reserved_table_names.iter().sorted().collect_vec();
-    json!({"tables": tables, "instances": instances, "columns": columns, "reserved": reserved})
+    let reserved_columns = anchor.reserved_column_names.iter().sorted().collect_vec();
+    json!({"tables": tables, "instances": instances, "columns": columns, "reserved": reserved,
+           "reserved_columns": reserved_columns})
 }
 
 fn compile_relation(relation: RelationAdapter, ctx: &mut Context) -> Result<pq::SqlRelation> {
